@@ -45,9 +45,11 @@ fn main() {
     let mut ctx = Ctx::new(&id, tier, seed, replay);
     match id.as_str() {
         "C01" => vlib::routing::run(&mut ctx, vlib::routing::Mode::C01),
+        "C02" => vlib::c02::run(&mut ctx),
         "C03" => vlib::c03::run(&mut ctx),
         "C04" => vlib::routing::run(&mut ctx, vlib::routing::Mode::C04),
         "C05" => vlib::c05::run(&mut ctx),
+        "C06" => vlib::c06::run(&mut ctx),
         "C13" => vlib::c13::run(&mut ctx),
         _ => {
             eprintln!("unknown property {}", id);
